@@ -67,7 +67,7 @@ fn gen_case(bytes: &[u8]) -> Case {
     p.pop(); // the generator's own final expression
     let mut p = super::super::gen::flatten(p);
     let rr = super::super::progcheck::reference(&p, 200_000);
-    let skip = rr.unspecified.as_deref().map(|u| u.contains("budget") || u.contains("operator *")).unwrap_or(false);
+    let skip = super::super::progcheck::memory_risk(&rr, &render(&p));
     // the probe prints its id
     p[1] = S::FnDef("t".into(), vec!["id".into(), "v".into()], vec![S::Expr(call("push", vec![id("obs"), id("id")])), S::Expr(call("puts", vec![id("id")])), S::Expr(id("v"))]);
     let mut body = String::from(ARGV_PRINT);
